@@ -57,7 +57,34 @@ def gen_project(rng, lang_mix=True):
             out.append((None, ""))
         for fn in range(rng.randint(1, 3)):
             ind = "    " if lang == "py" else "  "
-            out.append((f"def fn_{fi}_{fn}(alpha, value, items, store, owner, context):" if lang == "py" else f"function fn_{fi}_{fn}(alpha, value, items, store, context) {{", None))
+            # where the statements live: a plain function, a coroutine, a method or coroutine method of a class that has no other
+            # member, a function declared under a compound statement; TypeScript: function, async function, arrow function, method
+            kind = rng.choice(["def", "def", "async", "method", "async_method", "under_if"] if lang == "py" else ["function", "function", "async", "arrow", "method"])
+            closers = []
+            if lang == "py":
+                params = "(alpha, value, items, store, owner, context):"
+                if kind in ("method", "async_method"):
+                    out.append((f"class K_{fi}_{fn}:", None))
+                    out.append((("async def" if kind == "async_method" else "def") + f" run_{fi}_{fn}" + params.replace("(", "(self, "), "    " + ("async def" if kind == "async_method" else "def") + f" run_{fi}_{fn}" + params.replace("(", "(self, ")))
+                    ind = "        "
+                elif kind == "under_if":
+                    out.append((f"if FEATURE_{fi}_{fn}:", None))
+                    out.append((f"def fn_{fi}_{fn}" + params, f"    def fn_{fi}_{fn}" + params))
+                    ind = "        "
+                else:
+                    out.append((("async def" if kind == "async" else "def") + f" fn_{fi}_{fn}" + params, None))
+            else:
+                params = "(alpha, value, items, store, context)"
+                if kind == "method":
+                    out.append((f"class K_{fi}_{fn} {{", None))
+                    out.append((f"run_{fi}_{fn}{params} {{", f"  run_{fi}_{fn}{params} {{"))
+                    ind, closers = "    ", [("}", "  }"), ("}", "}")]
+                elif kind == "arrow":
+                    out.append((f"const fn_{fi}_{fn} = {params} => {{", None))
+                    closers = [("};", "};")]
+                else:
+                    out.append((("async " if kind == "async" else "") + f"function fn_{fi}_{fn}{params} {{", None))
+                    closers = [("}", "}")]
             body = []
             for _ in range(rng.randint(0, 4)):
                 body.append(stmt(fresh()))
@@ -79,7 +106,11 @@ def gen_project(rng, lang_mix=True):
             for b in body:
                 # interleave blank / comment-only lines, trailing comments, indentation noise
                 r = rng.random()
-                if r < 0.15:
+                if r < 0.04:
+                    # characters that str.splitlines() treats as line ends but compilers, editors and `\n`-counting do not: a form
+                    # feed page separator, a comment holding NEL / LINE SEPARATOR / FILE SEPARATOR
+                    out.append((None, rng.choice(["\x0c", ind + ("# " if lang == "py" else "// ") + "page\u2028break", ind + ("# " if lang == "py" else "// ") + "a\x85b", ind + ("# " if lang == "py" else "// ") + "x\x1cy"])))
+                elif r < 0.15:
                     out.append((None, ""))
                 elif r < 0.3:
                     out.append((None, ind + ("# note" if lang == "py" else "// note")))
@@ -93,7 +124,7 @@ def gen_project(rng, lang_mix=True):
                 out.append(("return total", ind + "return total"))
                 out.append((None, ""))
             else:
-                out.append(("}", "}"))
+                out += closers
                 out.append((None, ""))
         lines, toks = [], []
         for text, rendered in out:
@@ -187,7 +218,7 @@ def run(tier: str, seed: int, st: core.ProofStatus) -> core.Result:
                 "min_duplicate_lines 2..6 x min_occurrences 2..4; oracle = Lean pipeline model on the token lists + independent text "
                 "oracle + coverage/mutuality on the real output; non-trivial = at least one violation; distinct by (files, k, minOcc)")
     rng = core.sub_rng(seed, PROP, tier)
-    n = 80 if tier == "quick" else 2500
+    n = 240 if tier == "quick" else 2500
     cases = [{"files": F03A_FILES, "k": 3, "minOcc": 2, "probe": True}]
     corpus = core.VERIF / "harness" / "corpus" / PROP
     for _ in range(n):
